@@ -13,6 +13,9 @@ from typing import Dict, Iterable, Iterator, List, Optional, Set, Tuple, Union
 PKG = "json_to_models"
 
 
+from .canon import canonicalise
+
+
 class AnalysisError(Exception):
     """The analyser cannot decide (anchor vanished, unsupported construct, floor not met): exit 2."""
 
@@ -145,6 +148,7 @@ class Module:
         self.modname = modname
         self.src = src
         self.tree = ast.parse(src, filename=relpath)
+        self.canon_changes = canonicalise(self.tree)     # rare spellings -> the spelling the rules know (sa/canon.py)
         self.is_pkg = relpath.endswith("__init__.py")
         self.imports: Dict[str, Tuple[str, Optional[str]]] = {}  # local -> (module dotted, name or None)
         self.functions: Dict[str, FuncInfo] = {}
@@ -299,6 +303,7 @@ class Program:
                     self._load(rel)
         self._mro_cache: Dict[str, List[ClassInfo]] = {}
         self._callee_cache: Dict[str, list] = {}
+        self.consulted: Optional[Set[str]] = None   # anchor functions a rule asked for by name (see sa/shapegate.py)
 
     def _load(self, rel: str) -> Module:
         full = os.path.join(self.root, rel)
@@ -345,8 +350,12 @@ class Program:
         # property getter first
         for f in cands:
             if not any(d.endswith(".setter") or d.endswith(".deleter") for d in f.decorators):
-                return f
-        return cands[0]
+                break
+        else:
+            f = cands[0]
+        if self.consulted is not None:
+            self.consulted.add(f.key)
+        return f
 
     def find_class(self, name: str) -> List[ClassInfo]:
         return [c for m in self.pkg_modules() for c in m.all_classes if c.name == name]
